@@ -39,17 +39,33 @@ def patience(ctx, P, iters):
         cls, fn = view.method("get_reneging_date")
         tok = fn.args.args[1].arg
         rets = [x for x in ast.walk(fn) if isinstance(x, ast.Return)]
-        dist = [x for x in ast.walk(fn) if isinstance(x, ast.Assign) and unparse(x.targets[0]) == "dist"]
-        okd = len(dist) == 1 and unparse(dist[0].value).replace(" ", "") == "self.simulation.network.customer_classes[%s.customer_class].reneging_time_distributions[self.id_number-1]" % tok
+        table = "self.simulation.network.customer_classes[%s.customer_class].reneging_time_distributions[self.id_number-1]" % tok
+        dist = [x for x in ast.walk(fn) if isinstance(x, ast.Assign) and isinstance(x.targets[0], ast.Name) and "reneging_time_distributions" in unparse(x.value)]
+        okd = len(dist) == 1 and unparse(dist[0].value).replace(" ", "") == table
+        dname = unparse(dist[0].targets[0]) if dist else "dist"
         ob.ok("%s.get_reneging_date" % view.name, "; ".join(unparse(r.value) for r in rets))
         if not okd:
-            ctx.violation(ob, "R7.patience", "%s.get_reneging_date" % cls.name, unparse(dist[0].value) if dist else "dist", "wrong-distribution",
+            ctx.violation(ob, "R7.patience", "%s.get_reneging_date" % cls.name, unparse(dist[0].value) if dist else "reneging_time_distributions", "wrong-distribution",
                           "patience must be sampled from the reneging distribution of the customer's own class at this node", loc(fn))
-        forms = sorted(unparse(r.value).replace(" ", "") for r in rets)
-        want = sorted(["float('inf')", "self.increment_time(self.now,dist.sample(t=self.now,ind=%s))" % tok])
-        forms_n = [f.replace('"', "'").lower() if "inf" in f.lower() and "increment" not in f else f for f in forms]
-        if forms_n != want and forms_n != sorted(["float('inf')", "self.now+dist.sample(t=self.now,ind=%s)" % tok]):
-            ctx.violation(ob, "R7.patience", "%s.get_reneging_date" % cls.name, "; ".join(forms), "patience-date", "reneging date must be now + patience sample (inf when there is no distribution)", loc(fn))
+        w = Walker(P, view, keep=lambda e: e.kind in ("guard", "return"), track=lambda t, f: True, inline=lambda ev: False)
+        okp, np_ = True, 0
+        for st in w.paths_of(cls, fn):
+            if st.status != "return":
+                continue
+            np_ += 1
+            facts = rules.path_condition(st.events)
+            nn = [v for a, v in facts.items() if a[0] == "isnone"]
+            none = nn[0] if len(nn) == 1 else None
+            rv = [e for e in st.events if e.kind == "return"][0]
+            val = unparse(rv.d["value_node"]).replace(" ", "")
+            if none is True:
+                okp = okp and val.lower().replace('"', "'") == "float('inf')"
+            elif none is False:
+                okp = okp and val in ("self.increment_time(self.now,%s.sample(t=self.now,ind=%s))" % (dname, tok), "self.now+%s.sample(t=self.now,ind=%s)" % (dname, tok))
+            else:
+                okp = False
+        if not okp or np_ != 2:
+            ctx.violation(ob, "R7.patience", "%s.get_reneging_date" % cls.name, "; ".join(unparse(r.value) for r in rets), "patience-date", "reneging date must be now + patience sample (inf when there is no distribution)", loc(fn))
         # armed at accept
         cls2, fn2 = view.method("begin_service_if_possible_accept")
         tok2 = fn2.args.args[1].arg
@@ -108,9 +124,11 @@ def renege_scan(ctx, P):
         if not first or unparse(first[0].value) != "self.decide_between_simultaneous_individuals()":
             ctx.violation(ob, "R6.argmin", "%s.renege" % cls.name, unparse(first[0]) if first else "?", "subject-not-selected", "the reneging customer must be chosen among self.next_individual (the scan's minimisers)", loc(fn))
         cls, fn = view.method("decide_between_simultaneous_individuals")
-        rets = sorted(set(unparse(x.value) for x in ast.walk(fn) if isinstance(x, (ast.Assign,)) and unparse(x.targets[0]) == "next_individual"))
-        if rets != ["random_choice(self.next_individual)", "self.next_individual[0]"]:
-            ctx.violation(ob, "R6.argmin", "%s.decide_between_simultaneous_individuals" % cls.name, str(rets), "subject-not-selected", "must pick one of self.next_individual", loc(fn))
+        rv = [x for x in ast.walk(fn) if isinstance(x, ast.Return)]
+        rname = unparse(rv[0].value) if len(rv) == 1 else "?"
+        vals = sorted(set(unparse(x.value) for x in ast.walk(fn) if isinstance(x, ast.Assign) and unparse(x.targets[0]) == rname))
+        if vals != ["random_choice(self.next_individual)", "self.next_individual[0]"]:
+            ctx.violation(ob, "R6.argmin", "%s.decide_between_simultaneous_individuals" % cls.name, str(vals), "subject-not-selected", "must pick one of self.next_individual", loc(fn))
 
 
 def baulk(ctx, P, iters):
@@ -141,12 +159,13 @@ def baulk(ctx, P, iters):
             if not gs:
                 viol("no-decision", "decide_baulk", "baulking decision not found", loc(fn))
                 continue
-            f0 = gs[0].d["formula"]
             fn_is_none = ("isnone", "%s.baulking_functions[self.next_class]" % node)
-            if f0 != fn_is_none:
+            f0facts = {}
+            guards.assume(gs[0].d["formula"], gs[0].pol, f0facts)
+            if fn_is_none not in f0facts:
                 viol("function-lookup", gs[0].text, "the baulking function must be looked up for the node the customer would join and the arriving class", gs[0].where)
                 continue
-            if gs[0].pol:
+            if f0facts[fn_is_none]:
                 if recs or len(acc) != 1 or acc[0].d["recv"] != node or rnd:
                     viol("no-function-not-admitted", " -> ".join(x.text[:40] for x in evs), "without a baulking function the customer is simply sent to the node (and no random number is consumed)", loc(fn))
                 continue
@@ -154,15 +173,15 @@ def baulk(ctx, P, iters):
                 viol("no-random-draw", " -> ".join(x.text[:40] for x in evs), "exactly one random() must be compared with the baulking probability", loc(fn))
                 continue
             g = gs[1]
-            f = g.d["formula"]
-            okf = f[0] == "lt" and f[2].startswith("%s.baulking_functions[self.next_class](%s.number_of_individuals" % (node, node))
-            # left operand is the random draw
+            gf = {}
+            guards.assume(g.d["formula"], g.pol, gf)
             defs = {e.d["target"]: e.d["value"] for e in evs if e.kind == "assign"}
-            okr = f[0] == "lt" and (defs.get(f[1]) == "random()" or f[1] == "random()")
-            if not (okf and okr):
+            dec = [(a, v) for a, v in gf.items() if a[0] == "lt" and a[2].startswith("%s.baulking_functions[self.next_class](%s.number_of_individuals" % (node, node))
+                   and (defs.get(a[1]) == "random()" or a[1] == "random()")]
+            if len(dec) != 1:
                 viol("baulk-comparison", g.text[:120], "baulk iff random() < baulking_function(%s.number_of_individuals, ...): strict `<`, the random draw on the left, the population of the node to join as first argument" % node, g.where)
                 continue
-            if g.pol:
+            if dec[0][1]:
                 if len(recs) != 1 or recs[0].d["recv"] != node or len(acc) != 1 or acc[0].d["recv"] != "self.simulation.nodes[-1]" or evs.index(recs[0]) > evs.index(acc[0]):
                     viol("baulk-not-record-then-exit", " -> ".join(x.text[:40] for x in evs), "a baulking customer gets one baulk record at that node and goes to the exit", loc(fn))
                 elif recs[0].d["kw"].get("record_type", (recs[0].d["args"] + ["", ""])[1]) != "'baulk'":
